@@ -170,7 +170,7 @@ func sameFieldLoad(a, b ssa.Value) bool {
 	}
 	fn := la.Parent()
 	ok := true
-	Instrs(fn, func(in ssa.Instruction) {
+	InstrsOwn(fn, func(in ssa.Instruction) {
 		switch x := in.(type) {
 		case *ssa.Store:
 			if f, isF := x.Addr.(*ssa.FieldAddr); isF && f.X == ssa.Value(obj) && f.Field == fa.Field {
@@ -427,7 +427,7 @@ func (b *Bounds) fieldSummary(v ssa.Value, x ssa.Value, at ssa.Instruction) bool
 	}
 	_, fl, _ := FieldOf(fa)
 	found := false
-	Instrs(b.Fn, func(in ssa.Instruction) {
+	InstrsOwn(b.Fn, func(in ssa.Instruction) {
 		c, ok := in.(*ssa.Call)
 		if !ok {
 			return
@@ -513,7 +513,7 @@ func (b *Bounds) growIdiom(fa *ssa.FieldAddr, n ssa.Value, at ssa.Instruction) b
 		}
 		// no other store to the field that could run before `at`
 		clean := true
-		Instrs(b.Fn, func(in ssa.Instruction) {
+		InstrsOwn(b.Fn, func(in ssa.Instruction) {
 			st, ok := in.(*ssa.Store)
 			if !ok || st == growStore {
 				return
@@ -847,7 +847,7 @@ func (b *Bounds) onNilErrEdge(c *ssa.Call, at ssa.Instruction) bool {
 // Obligations generates and decides every in-range obligation of the function.
 func (b *Bounds) Obligations() []BoundObl {
 	var out []BoundObl
-	Instrs(b.Fn, func(in ssa.Instruction) {
+	InstrsOwn(b.Fn, func(in ssa.Instruction) {
 		switch x := in.(type) {
 		case *ssa.IndexAddr:
 			if _, isMap := x.X.Type().Underlying().(*types.Map); isMap {
